@@ -1978,6 +1978,9 @@ func (d *c17d_bn254) evs2(ps []c17P2_bn254) []Ev {
 
 // a point of the curve outside the r-torsion subgroup if the group has a cofactor, else a point off the curve
 func (d *c17d_bn254) off1() c17P1_bn254 {
+	if p, ok := d.curveOff1(); ok {
+		return c17P1_bn254{P: p}
+	}
 	f := reflect.ValueOf(curve.MapToCurve1)
 	for k := uint64(3); k < 40; k++ {
 		p := c17CallMap(f, k).Interface().(curve.G1Affine)
@@ -1991,6 +1994,41 @@ func (d *c17d_bn254) off1() c17P1_bn254 {
 	p.Y.Add(&p.Y, &one)
 	return c17P1_bn254{P: p}
 }
+// curveOff1 searches x = 1, 2, ... for a point of the curve y^2 = x^3 + b outside the prime-order subgroup (b is read off
+// the generator; the map-to-curve functions of some curves land on an isogenous curve and are of no use here)
+func (d *c17d_bn254) curveOff1() (curve.G1Affine, bool) {
+	g := d.g1
+	b, t := g.Y, g.X
+	b.Square(&g.Y)
+	t.Square(&g.X).Mul(&t, &g.X)
+	b.Sub(&b, &t)
+	for k := uint64(1); k < 200; k++ {
+		var p curve.G1Affine
+		p.X.SetUint64(k)
+		rhs := p.X
+		rhs.Square(&p.X).Mul(&rhs, &p.X).Add(&rhs, &b)
+		if p.Y.Sqrt(&rhs) == nil {
+			continue
+		}
+		if p.IsOnCurve() && !p.IsInSubGroup() {
+			return p, true
+		}
+	}
+	return g, false
+}
+
+// a non-trivial point of the cofactor torsion ([r]U for a curve point U outside the subgroup); none on cofactor-1 curves.
+// Adding it to a group element changes no pairing value: only a subgroup test notices.
+func (d *c17d_bn254) torsion1() (curve.G1Affine, bool) {
+	u, ok := d.curveOff1()
+	if !ok {
+		return u, false
+	}
+	var t curve.G1Affine
+	t.ScalarMultiplication(&u, fr.Modulus())
+	return t, !t.IsInfinity()
+}
+
 func (d *c17d_bn254) off2() c17P2_bn254 {
 	f := reflect.ValueOf(curve.MapToCurve2)
 	for k := uint64(3); k < 40; k++ {
@@ -2182,6 +2220,16 @@ func (d *c17d_bn254) pedersenFamily() {
 			p = single.cp(a)
 			p.P[0] = d.off1()
 			c17Forged(tr, single, "offgroup", p)
+			if t, ok := d.torsion1(); ok {
+				p = single.cp(a)
+				p.C[0].P.Add(&p.C[0].P, &t)
+				p.C[0].S = nil // outside the subgroup: no discrete logarithm
+				c17Forged(tr, single, "offgroup", p)
+				p = single.cp(a)
+				p.P[0].P.Add(&p.P[0].P, &t)
+				p.P[0].S = nil
+				c17Forged(tr, single, "offgroup", p)
+			}
 			// wrongsigma: the proof of knowledge made with another trapdoor
 			p = single.cp(a)
 			p.P[0] = d.p1(mul(it.C.S, sigma[(j+1)%nk]))
@@ -2267,6 +2315,19 @@ func (d *c17d_bn254) pedersenFamily() {
 			p = batch.cp(a)
 			p.P[lp] = d.off1()
 			c17Forged(tr, batch, "offgroup", p)
+			if t, ok := d.torsion1(); ok {
+				// honest elements shifted by a cofactor-torsion point, at the first and at the last position
+				for _, i := range []int{0, last} {
+					p = batch.cp(a)
+					p.C[i].P.Add(&p.C[i].P, &t)
+					p.C[i].S = nil // outside the subgroup: no discrete logarithm
+					c17Forged(tr, batch, "offgroup", p)
+				}
+				p = batch.cp(a)
+				p.P[lp].P.Add(&p.P[lp].P, &t)
+				p.P[lp].S = nil
+				c17Forged(tr, batch, "offgroup", p)
+			}
 		}
 	}
 	// ---- the library's own Setup (trapdoor unknown): judged by the operator table only ----
